@@ -85,6 +85,10 @@ def run(ctx, facts):
     from . import C05
     ctx.rule("LOWER", C05.RULES["LOWER"])
     C05.lower_rules(ctx, facts)
+    # a merged sketch follows the model of the union only if the join really took place for every pair of compatible sketches
+    for k_ in ("MERGE-a", "MERGE-b", "MERGE-c"):
+        ctx.rule(k_, C05.RULES[k_])
+    C05.merge_rules(ctx, facts)
     C13.require_verified_reset(ctx, facts, [C13.FY], "RESETBEFORE")
     # a sketcher reused after reinit must follow the same model as a new one (stale registers or a stale pruning bound do not)
     ctx.rule("REINIT", "SetSketcher::reinit re-establishes every live mutated field with the constructor's value (RESET analysis of C13)")
